@@ -158,6 +158,9 @@ fn do_validate<'a>(
     // Every file gets its own verdict and its own log: start from an empty collector
     // so that assertions recorded for files validated earlier do not leak into this one.
     env.borrow_mut().assert_results = build::AssertCollector::new();
+    // Likewise the values of imported files: the assertions of a file this one imports
+    // count for this file too, whether or not an earlier file already imported it.
+    env.borrow_mut().val_cache.clear();
     match build_file(file, true, strict, import_paths, env) {
         Ok(b) => {
             if b.assert_results() {
